@@ -6,6 +6,8 @@ import os
 import subprocess
 import traceback
 
+import numpy as np
+
 from harness.common import VERIF, BUILD
 from harness import latarith_check
 
@@ -54,3 +56,128 @@ def run_families(ctx, fn_name, translator_families=None):
             ctx.obligation('family %s %s completed' % (fam, fn_name), False, traceback.format_exc())
     latarith_check.check(ctx, translator_families or fams)
     return fams
+
+
+def _families():
+    from qecsim.models.planar import PlanarCode
+    from qecsim.models.toric import ToricCode
+    from qecsim.models.rotatedplanar import RotatedPlanarCode
+    from qecsim.models.rotatedtoric import RotatedToricCode
+    from qecsim.models.color import Color666Code
+    return PlanarCode, ToricCode, RotatedPlanarCode, RotatedToricCode, Color666Code
+
+
+def cold_queries(ctx):
+    """Read-only index queries (in range, on the boundary and outside the lattice) and documented no-op Pauli calls on a
+    FRESH code object of every size, in random order, BEFORE its matrices are first computed in this process; the
+    matrices are then computed on that same object.  Everything the family checks decide afterwards (rows against the
+    model, validity, ranks) is therefore decided on matrices computed after such a history."""
+    import inspect
+    rng = ctx.rng
+    PlanarCode, ToricCode, RotatedPlanarCode, RotatedToricCode, Color666Code = _families()
+    top = ctx.pick(9, 13)
+    sizes = [(PlanarCode, (r, c)) for r in range(2, top) for c in range(2, top)]
+    sizes += [(ToricCode, (r, c)) for r in range(2, top) for c in range(2, top)]
+    sizes += [(RotatedPlanarCode, (r, c)) for r in range(3, top + 1) for c in range(3, top + 1)]
+    sizes += [(RotatedToricCode, (r, c)) for r in range(2, top + 2, 2) for c in range(2, top + 2, 2)]
+    sizes += [(Color666Code, (s,)) for s in range(3, top + 6, 2)]
+    ncalls = 0
+    for cls, args in sizes:
+        code = cls(*args)
+        hi = 2 * max(args) + 3
+        preds = [nm for nm, f in inspect.getmembers(cls, predicate=inspect.isfunction)
+                 if nm.startswith('is_') and len(inspect.signature(f).parameters) == 2]
+        pauli = code.new_pauli()
+        for _ in range(rng.randint(0, 24)):
+            idx = (rng.randint(-3, hi), rng.randint(-3, hi))
+            if cls is ToricCode:
+                idx = (rng.randint(-1, 2),) + idx
+            try:
+                r = rng.random()
+                if r < 0.7 and preds:
+                    getattr(code, rng.choice(preds))(idx)
+                elif r < 0.85:
+                    if cls is Color666Code:
+                        pauli.plaquette(rng.choice('XZ'), idx)
+                    else:
+                        pauli.plaquette(idx)
+                else:
+                    pauli.site(rng.choice('XYZ'), idx)
+                ncalls += 1
+            except Exception:  # noqa  (out-of-lattice indices may be refused; only the later matrices matter here)
+                pass
+        code.stabilizers, code.logicals, code.n_k_d
+    ctx.extra['cold_queries'] = {'code_objects': len(sizes), 'calls': ncalls}
+    ctx.count(('cold-queries',), True, 'cold-query-history', None, n=len(sizes))
+
+
+def extreme_sizes(ctx):
+    """C15 at sizes whose coordinates cross small-integer widths (beyond 127 / 255): syndrome bit i maps back to the
+    plaquette that produced stabilizer i, multi-bit syndromes map to the set of flagged plaquettes, and sampled
+    same-type paths (near the far edges included) have exactly their end points as syndrome."""
+    from qecsim import paulitools as pt
+    rng = ctx.rng
+    PlanarCode, ToricCode, RotatedPlanarCode, RotatedToricCode, Color666Code = _families()
+    cases = [(PlanarCode, (2, 131)), (PlanarCode, (131, 2)), (PlanarCode, (3, 140)), (PlanarCode, (2, 260)),
+             (ToricCode, (2, 131)), (ToricCode, (131, 2)), (ToricCode, (2, 260)),
+             (RotatedPlanarCode, (3, 131)), (RotatedPlanarCode, (131, 3)), (RotatedPlanarCode, (3, 259)),
+             (RotatedToricCode, (2, 130)), (RotatedToricCode, (130, 2)), (RotatedToricCode, (2, 258))]
+    if not ctx.quick:
+        cases += [(PlanarCode, (260, 2)), (PlanarCode, (4, 200)), (ToricCode, (260, 2)), (RotatedPlanarCode, (259, 3)),
+                  (RotatedToricCode, (258, 2)), (RotatedToricCode, (4, 132))]
+    for cls, args in cases:
+        code = cls(*args)
+        fam = cls.__name__
+        rep = {'family': fam, 'size': list(args)}
+        n = int(code.n_k_d[0])
+        S = np.array(code.stabilizers, dtype=np.uint8)
+        m = len(S)
+        pidx = []
+        bad = False
+        for i in range(m):
+            e = np.zeros(m, dtype=int)
+            e[i] = 1
+            g = [tuple(int(v) for v in t) for t in code.syndrome_to_plaquette_indices(e)]
+            ok = len(g) == 1
+            if ok:
+                row = code.new_pauli().plaquette(g[0]).to_bsf()
+                ok = np.array_equal(row, S[i])
+            if not ok:
+                ctx.violation('extreme-size-syndrome-map', 'syndrome bit i does not map back to the plaquette whose operator is '
+                              'stabilizer i', dict(rep, bit=i, got=[list(t) for t in g]))
+                bad = True
+                break
+            pidx.append(g[0])
+        ctx.count(('extreme', fam, args), True, 'extreme-size/' + fam, None, n=m)
+        if bad:
+            continue
+        for _ in range(4):
+            syn = np.array([1 if rng.random() < 0.1 else 0 for _ in range(m)])
+            got = set(tuple(int(v) for v in t) for t in code.syndrome_to_plaquette_indices(syn))
+            if got != {pidx[i] for i in range(m) if syn[i]}:
+                ctx.violation('extreme-size-syndrome-map', 'syndrome_to_plaquette_indices is not the set of flagged plaquettes',
+                              dict(rep, syndrome_weight=int(syn.sum())))
+        if not hasattr(code.new_pauli(), 'path'):
+            continue
+        xtype = S[:, :n].any(axis=1)
+        St = S.T.astype(np.int64)
+        edge = [i for i in range(m) if max(pidx[i]) >= 120]
+        for _ in range(ctx.pick(60, 400)):
+            i = rng.choice(edge) if edge and rng.random() < 0.6 else rng.randrange(m)
+            same = [j for j in (rng.randrange(m) for _ in range(12)) if xtype[j] == xtype[i]]
+            if cls is ToricCode:
+                same = [j for j in same if pidx[j][0] == pidx[i][0]]
+            if not same:
+                continue
+            j = same[0]
+            a, b = pidx[i], pidx[j]
+            path = code.new_pauli().path(a, b).to_bsf()
+            syn = pt.bsp(path, St) % 2
+            want = np.zeros(m, dtype=int)
+            want[i] ^= 1
+            want[j] ^= 1
+            ctx.count(('extreme-path', fam, args, a, b), a != b, 'extreme-size-path/' + fam, None)
+            if not np.array_equal(syn, want):
+                ctx.violation('extreme-size-path-syndrome', 'syndrome of path(a, b) is not exactly {a, b}',
+                              dict(rep, a=list(a), b=list(b)))
+                break
